@@ -57,6 +57,8 @@ def _edit_args(req, step=1):
             args[f] = ""
         elif form == "unenc":
             args[f] = 3.25 if f in ("comment", "source") else [3.25]
+        elif form == "unenctext":     # text that has no UTF-8 encoding: a lone surrogate, as argv decoding produces it
+            args[f] = "caf\udce9 x" if f in ("comment", "source") else ["http://t.example/caf\udce9"]
         else:
             v = concrete(step, f, form)
             args[f] = v
@@ -95,6 +97,23 @@ def _abstract_ops(log, role, new):
             continue
         ops.append({"n": e["n"], "kind": e["kind"], "p": role(e["path"]), "p2": role(e["path2"]),
                     "d": e.get("dclass", ""), "extra": e.get("extra", -1), "via": e.get("via", "")})
+    return ops
+
+
+def _label_writes(ops, new):
+    """Name what each write leaves behind: a buffered write that brings the bytes written since the file was opened to
+    exactly the new metafile's length completes it ("New"), one that stays below continues a prefix ("Partial", a
+    streamed encoder writes many of those), anything else is "Other".  Direct writes report the file offset."""
+    cum = {}
+    n = len(new) if new is not None else -1
+    for o in ops:
+        if o["kind"].startswith("open_"):
+            cum[o["p"]] = 0
+        elif o["kind"] == "write":
+            cum[o["p"]] = cum.get(o["p"], 0) + max(0, o["extra"])
+            o["d"] = "New" if cum[o["p"]] == n else ("Partial" if 0 < cum[o["p"]] < n else "Other")
+        elif o["kind"] == "dwrite":
+            o["d"] = "New" if o["extra"] == n else "Other"
     return ops
 
 
@@ -166,7 +185,7 @@ def run_editfault(case):
         with open(base, "rb") as fh:
             old = fh.read()
         req, entry = case["req"], case["entry"]
-        encodable = "unenc" not in req.values()
+        encodable = "unenc" not in req.values() and "unenctext" not in req.values()
         run = [0]
 
         mname = case.get("meta_name", "m.torrent")
@@ -196,9 +215,7 @@ def run_editfault(case):
         role = _role_fn(out, alias=alias[0])
         ref_ops = _abstract_ops(log["log"], role, new)
         # label what each write wrote: re-run once more un-faulted is unnecessary - sizes identify it
-        for o in ref_ops:
-            if o["kind"] in ("write", "dwrite"):
-                o["d"] = "New" if new is not None and o["extra"] == len(new) else "Other"
+        _label_writes(ref_ops, new)
         rid = case["id"] * 1000
         recs.append({"id": rid, "op": "editfault", "clauses": case["clauses"], "ops": ref_ops,
                      "fault": {"at": 0, "kind": "none", "k": 0}, "status": status,
@@ -220,9 +237,7 @@ def run_editfault(case):
                 status, log, out = one(plan)
                 role = _role_fn(out, alias=alias[0])
                 ops = _abstract_ops(log["log"], role, new)
-                for o in ops:
-                    if o["kind"] in ("write", "dwrite"):
-                        o["d"] = "New" if new is not None and o["extra"] == len(new) else "Other"
+                _label_writes(ops, new)
                 recs.append({"id": rid + k, "op": "editfault", "clauses": case["clauses"], "ops": ops,
                              "fault": {"at": min(at, len(ops)) if ops else 0, "kind": kind, "k": kk},
                              "status": status, "final": _classify(out, old, new), "encodable": encodable,
@@ -277,9 +292,7 @@ def _followup(case, rid, out, sbx, run):
             return extra[os.path.abspath(p)]
         return r
     ops = _abstract_ops(log["log"], role, expected)
-    for o in ops:
-        if o["kind"] in ("write", "dwrite"):
-            o["d"] = "New" if expected is not None and o["extra"] == len(expected) else "Other"
+    _label_writes(ops, expected)
     return {"id": rid, "op": "editfault", "clauses": [c for c in case["clauses"]], "ops": ops,
             "fault": {"at": 0, "kind": "followup", "k": 0}, "status": status,
             "final": _classify(out, pre, expected), "encodable": True, "entry": "lib",
